@@ -66,6 +66,14 @@ def build_pool(workdir):
     import collections as _c
     P["defmap"] = _c.defaultdict(float, {ga: -1.1})                     # partial maps of other Mapping kinds: theta is absent (a lookup must not insert it)
     P["cntmap"] = _c.Counter({ga: 2})
+    # a PARAMETRIC custom definition whose matrix is held in an unsimplified form (the product of two rotations, written out), and a symbolic wavefunction with unsimplified entries:
+    # a serialiser / a read must not tidy up what the caller holds
+    t_, u_ = sympy.Symbol("t"), sympy.Symbol("u")
+    Mu = sympy.Matrix([[sympy.cos(t_) ** 2 - sympy.sin(t_) ** 2, -2 * sympy.sin(t_) * sympy.cos(t_)], [sympy.sin(t_) * sympy.cos(t_) + sympy.cos(t_) * sympy.sin(t_), -sympy.sin(t_) ** 2 + sympy.cos(t_) ** 2]])
+    udef = C.CustomGateDefinition("unsimp", Mu, (t_,))
+    P["circ_unsimp"] = C.Circuit([udef(th)(0), udef(0.4)(1), C.RX(th)(1)], n_qubits=2)
+    P["wf_unsimp"] = Wavefunction(sympy.Matrix([sympy.cos(a) * sympy.cos(u_) - sympy.sin(a) * sympy.sin(u_), sympy.sin(a) * sympy.cos(u_) + sympy.cos(a) * sympy.sin(u_)]))
+    P["wf_col"] = Wavefunction(np.array([[0.6], [0.8j], [0], [0]]))           # amplitudes held as a column vector (what binding a symbolic state yields)
     P["symmap"] = {th: 0.3, ga: -1.1}
     P["wfmap"] = {a: 0.8}
     P["counts"] = {"01": 2, "11": 1}
@@ -305,6 +313,15 @@ def menu():
         "circ.bind_defaultdict": lambda P: P["circ"].bind(P["defmap"]),
         "gop.bind_counter": lambda P: P["gop"].bind(P["cntmap"]),
         "gate.bind_defaultdict": lambda P: P["gate"].bind(P["defmap"]),
+        "circ_unsimp.to_dict": lambda P: C.to_dict(P["circ_unsimp"]),
+        "circ_unsimp.save": lambda P: _file(P, "cu.json", lambda p: C.save_circuit(P["circ_unsimp"], p)),
+        "circ_unsimp.bind": lambda P: P["circ_unsimp"].bind({sympy.Symbol("theta"): 0.3}),
+        "circ_unsimp.gate_matrix": lambda P: P["circ_unsimp"].operations[1].gate.matrix,
+        "wf_unsimp.probabilities": lambda P: P["wf_unsimp"].get_probabilities(),
+        "wf_unsimp.outcome_probs": lambda P: P["wf_unsimp"].get_outcome_probs(),
+        "wf_unsimp.free_symbols": lambda P: sorted(map(str, P["wf_unsimp"].free_symbols)),
+        "wf_col.expect": lambda P: O.get_expectation_value(P["herm"], P["wf_col"]),
+        "wf_col.probabilities": lambda P: P["wf_col"].get_probabilities(),
         "wf.free_symbols": lambda P: sorted(map(str, P["wf_sym"].free_symbols)),
     }
     return ops
